@@ -38,6 +38,26 @@ func genPayload(rt *rapid.T) string {
 			b.WriteString(rapid.SampledFrom([]string{".", "-", "--", "_", "__", "a", "b1", "%", "'", "/*", "#", "\\", "é", ";", ")"}).Draw(rt, "t"))
 		}
 		return b.String()
+	case 3: // regex values that are (anchored) alternations of plain words, one branch holding an
+		// escaped pipe, a trailing backslash or another hostile byte: reaches planners that
+		// split an alternation on '|' and render the branches one by one
+		n := rapid.IntRange(1, 4).Draw(rt, "n")
+		var br []string
+		for i := 0; i < n; i++ {
+			br = append(br, rapid.SampledFrom([]string{"abc", "x1", "job", "d_e", `a\|b`, `x\`, `a\\`, `\|`, "it's", `q\'`, "a%", "b_c", `a\.b`, "", "é"}).Draw(rt, "br"))
+		}
+		body := strings.Join(br, "|")
+		switch rapid.IntRange(0, 4).Draw(rt, "anchor") {
+		case 1:
+			return "^(" + body + ")$"
+		case 2:
+			return "^(?:" + body + ")$"
+		case 3:
+			return "(" + body + ")"
+		case 4:
+			return "^" + body + "$"
+		}
+		return body
 	default:
 		// hostile fragments at the start / middle / end of harmless text
 		n := rapid.IntRange(1, 6).Draw(rt, "n")
